@@ -603,15 +603,15 @@ Proof.
   pose proof (res_free_live (semantic_impl n) (Some k) (init G) Fr) as L.
   destruct (k <? n) eqn:E.
   - apply Nat.ltb_lt in E.
-    pose proof (fault_raises (semantic_impl n) k (init G)) as R. rewrite Fn in R. simpl in R.
+    pose proof (fault_raises (semantic_impl n) k (init G)) as R. rewrite Fn in R. change (cnt (init G)) with 0 in R.
     specialize (R (conj (Nat.le_0_l k) E)).
-    destruct (exec (Some k) (semantic_impl n) (init G)) as [[] s1]; simpl in *; [discriminate | exact L].
+    destruct (exec (Some k) (semantic_impl n) (init G)) as [[] s1]; cbn [fst snd] in *; [discriminate | exact L].
   - apply Nat.ltb_ge in E.
-    pose proof (only_faults_fail (semantic_impl n) (Some k) (init G) Fc) as O. rewrite Fn in O. simpl in O.
-    pose proof (exec_ok_counts (semantic_impl n) (Some k) (init G)) as C. rewrite Fn in C. simpl in C.
+    pose proof (only_faults_fail (semantic_impl n) (Some k) (init G) Fc) as O. rewrite Fn in O. change (cnt (init G)) with 0 in O.
+    pose proof (exec_ok_counts (semantic_impl n) (Some k) (init G)) as C. rewrite Fn in C. change (cnt (init G)) with 0 in C.
     pose proof (write_free_keeps (semantic_impl n) [GWidth; GScale] (Some k) (init G) Fw) as K.
-    destruct (exec (Some k) (semantic_impl n) (init G)) as [[] s1]; simpl in *.
-    + destruct (C eq_refl) as [C1 _].
+    destruct (exec (Some k) (semantic_impl n) (init G)) as [[] s1]; cbn [fst snd] in *.
+    + destruct (C eq_refl) as [C1 _]. simpl in C1.
       set (s0 := mkSt (live s1) (glb s1) (obs s1) 0 (trace s1)).
       assert (s1 = shift n s0) as Es by (destruct s1; simpl in *; subst; reflexivity).
       replace (Some k) with (Some ((k - n) + n)) by (f_equal; lia).
